@@ -24,6 +24,13 @@ GcdBounds == {"1", "2^64", "2^128"}
 VARIABLE cell
 Init == \/ \E m \in ModClasses, cp \in CheckParams : cell = [kind |-> "single", mod |-> m, check |-> cp[1], param |-> cp[2]]
         \/ \E m \in ModClasses, h \in Helpers : cell = [kind |-> "helper", mod |-> m, check |-> h, param |-> "default"]
+        \* every single check on a mixed batch: a key of the family it factors first, then tiny / degenerate / healthy moduli
+        \* (state kept across the keys of one call must not leak evidence from one key to the next)
+        \/ \E cp \in CheckParams : cell = [kind |-> "batch", mod |-> "family-then-others", check |-> cp[1], param |-> cp[2]]
+        \* populations of small moduli through the helpers whose acceptance test is a perfect-square / gcd coincidence
+        \/ \E h \in {"FermatFactor", "FactorHighAndLowBitsEqual", "CheckContinuedFraction", "CheckFraction"}, sz \in {"64", "80", "128"},
+              chunk \in {"0", "1", "2", "3"} :
+              cell = [kind |-> "population", mod |-> sz, check |-> h, param |-> chunk]
         \/ \E c \in Contexts, b \in GcdBounds : cell = [kind |-> "aggregate", mod |-> c, check |-> "CheckGCD+CheckGCDN1", param |-> b]
 Next == UNCHANGED cell
 Spec == Init /\ [][Next]_cell
